@@ -7,7 +7,7 @@ import json, os, subprocess, sys, time, shutil, hashlib, re, random
 from concurrent.futures import ThreadPoolExecutor
 
 VERIF = os.path.dirname(os.path.dirname(os.path.abspath(__file__)))
-SPEC = os.path.join(VERIF, "spec")
+SPEC = os.environ.get("VERIF_SPEC") or os.path.join(VERIF, "spec")     # (VERIF_SPEC: a scratch copy while developing the specification)
 # (VERIF_HARNESS / VERIF_EVIDENCE: a scratch copy of the harness built against a scratch copy of the repository, used only to
 # evaluate seeded changes without touching /repo or the committed evidence; see driver/seed_eval.sh)
 HARNESS = os.environ.get("VERIF_HARNESS") or os.path.join(VERIF, "harness")
